@@ -63,7 +63,11 @@ func spec(id string) (propSpec, bool) {
 	case "C14":
 		d.Level = "fault_enumeration"
 		d.HangIsViolation = true // Convert must return the writer's error; not returning at all is not returning it
-	case "C02", "C06", "C08", "C09", "C10", "C11", "C13", "C15", "C16", "C17", "C18", "C19", "C20":
+	case "C13", "C18", "C19", "C20":
+		// the property states what every call (sequence) yields; a call that reproducibly never returns does not
+		// yield it, and no other property covers these APIs (a conversion that hangs is C01's)
+		d.HangIsViolation = true
+	case "C02", "C06", "C08", "C09", "C10", "C11", "C15", "C16", "C17":
 	default:
 		return d, false
 	}
